@@ -493,13 +493,13 @@ func runC07(p *core.Prog, r *core.Report, tier string) {
 			// we require: on the edge where the candidate is replaced, new score > (or >=) best score.
 			upd, okU := updateEdge(f, ifi, ds)
 			if !okU {
-				r.Undecide("C07.f", fmt.Sprintf("%s|score-comparison#%d", core.FnKey(f), nScore), p.Pos(ifi.Pos()), "cannot tell which edge replaces the best candidate")
+				r.Undecide("C07.f", fmt.Sprintf("%s|score-comparison#%d", core.FnKey(f), nScore), p.Pos(core.IfPos(ifi)), "cannot tell which edge replaces the best candidate")
 				return
 			}
 			if upd == 1 {
 				rel = negRelStr(rel)
 			}
-			r.Check(rel == ">" || rel == ">=", "C07.f", fmt.Sprintf("%s|score-comparison#%d", core.FnKey(f), nScore), p.Pos(ifi.Pos()), "the candidate is replaced only by a response with a greater (or equal) score", "the best candidate is replaced when the new score is '"+rel+"' the best score: the strategy does not keep the highest-scoring response")
+			r.Check(rel == ">" || rel == ">=", "C07.f", fmt.Sprintf("%s|score-comparison#%d", core.FnKey(f), nScore), p.Pos(core.IfPos(ifi)), "the candidate is replaced only by a response with a greater (or equal) score", "the best candidate is replaced when the new score is '"+rel+"' the best score: the strategy does not keep the highest-scoring response")
 			// the running maximum moves with the candidate: the score compared against (a loop-carried variable) receives
 			// the challenger's score somewhere (otherwise later responses are compared with a stale score and a worse one
 			// replaces a better one)
@@ -541,7 +541,7 @@ func runC07(p *core.Prog, r *core.Report, tier string) {
 						}
 					}
 					walk(phi)
-					r.Check(fed, "C07.f", fmt.Sprintf("%s|score-comparison#%d|running-best-updated", core.FnKey(f), nScore), p.Pos(ifi.Pos()), "the score compared against is replaced by the winner's score",
+					r.Check(fed, "C07.f", fmt.Sprintf("%s|score-comparison#%d|running-best-updated", core.FnKey(f), nScore), p.Pos(core.IfPos(ifi)), "the score compared against is replaced by the winner's score",
 						"the score the responses are compared with is never replaced by this comparison's winning score: after a better response a worse one that arrives later still compares as greater and replaces it")
 				}
 			}
